@@ -1,0 +1,12 @@
+//go:build verif
+
+package provider
+
+import (
+	"github.com/lestrrat-go/jwx/v2/jwk"
+
+	openidconfig "github.com/nais/wonderwall/pkg/openid/config"
+)
+
+// VerifKeySetMutator exposes keySetMutator, the post-fetch hook applied to the provider's JWKS (verification hook).
+func VerifKeySetMutator(cfg openidconfig.Provider) jwk.PostFetcher { return keySetMutator(cfg) }
